@@ -949,7 +949,7 @@ class Body:
                 return Expr("call", [f] + args, path="<indirect>", site=site, info=None)
             if "value" in c and not args:
                 return Expr("const", v=int(c["value"]), ty="usize", from_call=c["inst"])
-            return Expr("call", args, path=callee_name(c), site=site, info=c)
+            return Expr("call", args, path=callee_name(c), site=site, info=c, ty=payload["dest"].get("ty", ""))
         rv = payload
         k = rv["rv"]
         if k == "use":
